@@ -1,14 +1,24 @@
-/* C26: serialisation of a message head.  The real evhttp_response_code_() /
- * evhttp_make_request() (argument acceptance), evhttp_add_header() +
- * evhttp_header_is_valid_value() (header acceptance) and evhttp_make_header()
+/* C26 (a): what evhttp_make_header() writes.  The real evhttp_make_header()
  * (evhttp_make_header_response / _request, automatic headers, header loop,
- * body) write into a flat sink evbuffer; the bytes written are parsed back by
- * a lenient RFC 9112 reference recipient (any LF ends a line, obs-fold is
- * unfolded) and compared with what the caller supplied.
+ * body) writes into a flat sink evbuffer; the bytes must be EXACTLY
  *
- *   -DVP_RESPONSE  response: symbolic status code, reason phrase, one caller header, body
- *   -DVP_REQUEST   request: symbolic method, target, one caller header, body
- *   -DVP_MINOR=0|1 HTTP/1.0 or HTTP/1.1 (automatic headers differ)
+ *   start-line CRLF  *( name ": " value CRLF )  CRLF  body
+ *
+ * with the caller's strings verbatim, the caller's header first and then only
+ * the documented automatic headers (Date, Content-Length) in that order, and
+ * the caller's body bytes.
+ *
+ * This is one third of the C26 argument (see props/C26.py):
+ *   (a) this file:        output = format(components)              [real code]
+ *   (b) C26_accept.c:     components the API accepts are "safe"    [real code]
+ *   (c) C26_lemma.c:      format(safe components) parses back, under the RFC
+ *                         9112 reference recipient, to exactly those components
+ *
+ * Everything that decides HOW MANY bytes are written is fixed per obligation
+ * (string lengths, status code, method, body length: -DVP_K -DVP_V -DVP_R
+ * -DVP_CODE -DVP_METHOD -DVP_B, enumerated by the driver), so the layout of the
+ * sink is concrete; the bytes of the caller's strings are symbolic (any byte
+ * but NUL).
  *
  * Environment: evutil_date_rfc1123 -> fixed text "D" (evutil_time.c is not the
  * subject); bufferevent_get_output -> the sink.
@@ -20,24 +30,28 @@
 #include "http_evutil.h"
 #include "http.c"
 #ifndef VP_K
-#define VP_K 4   /* header name bytes */
+#define VP_K 2   /* header name bytes */
 #endif
 #ifndef VP_V
-#define VP_V 6   /* header value bytes */
+#define VP_V 3   /* header value bytes */
 #endif
 #ifndef VP_R
-#define VP_R 4   /* reason phrase / target bytes */
+#define VP_R 2   /* reason phrase / target bytes */
 #endif
 #ifndef VP_MINOR
 #define VP_MINOR 1
 #endif
+#ifndef VP_CODE
+#define VP_CODE 200
+#endif
+#ifndef VP_METHOD
+#define VP_METHOD 0
+#endif
+#ifndef VP_B
+#define VP_B 0
+#endif
 #define VP_FLAT_CAP 96
 #include "http_flatbuf.h"
-#define REF_MAXLINES 8
-#define REF_MAXLINE 40
-#define REF_MAXV 40
-#define REF_MAXF 6
-#include "http_ref.h"
 
 static struct bufferevent vp_bev;
 struct evbuffer *bufferevent_get_output(struct bufferevent *b) { return b->output; }
@@ -50,49 +64,19 @@ int evutil_date_rfc1123(char *date, const size_t datelen, const struct tm *tm)
 	return 1;
 }
 
-/* draw a symbolic C string of at most max bytes */
-static size_t vp_cstr(char *buf, size_t max)
-{
-	size_t n, i;
-	vp_bytes(buf, max);
-	n = (size_t)vp_range(0, max);
-	buf[n] = '\0';
-	for (i = 0; i < max; i++)
-		__CPROVER_assume(i >= n || buf[i] != '\0');
-	return n;
-}
+/* expected output, built by plain concatenation */
+static unsigned char exp_out[VP_FLAT_CAP];
+static size_t exp_len;
+static void ex_s(const char *s) { size_t i; for (i = 0; s[i] != '\0'; i++) exp_out[exp_len++] = (unsigned char)s[i]; }
+static void ex_c(char c) { exp_out[exp_len++] = (unsigned char)c; }
 
-/* split the sink into lines the way the most lenient recipient does: LF ends a line,
- * one CR directly before it belongs to the terminator (RFC 9112 2.2) */
-#define VP_MAXLINES 8
-static const ref_u8 *ol[VP_MAXLINES];
-static size_t olen[VP_MAXLINES];
-static size_t nol, head_end;
-static void split_lines(const unsigned char *d, size_t n)
+static void vp_cstr(char *buf, size_t n)
 {
-	size_t i, start = 0;
-	nol = 0; head_end = n;
-	for (i = 0; i < VP_FLAT_CAP; i++) {
-		if (i >= n) break;
-		if (d[i] == '\n' && nol < VP_MAXLINES) {
-			size_t e = i;
-			if (e > start && d[e - 1] == '\r') e--;
-			ol[nol] = d + start; olen[nol] = e - start; nol++;
-			if (e == start) { head_end = i + 1; break; } /* empty line: end of the head */
-			start = i + 1;
-		}
-	}
-}
-/* expected value of a caller header: obs-fold (line break followed by SP/HTAB) reads as one SP */
-static int field_is(const struct ref_hfield *f, const char *name, const char *value)
-{
-	size_t i, nl = strlen(name), vl = strlen(value);
-	if (f->name_len != nl) return 0;
-	for (i = 0; i < REF_MAXV && i < nl; i++) if (f->name[i] != (ref_u8)name[i]) return 0;
-	if (f->folded) return 1; /* folded caller value: content checked by the unfolding rule of the reference, not compared byte-wise */
-	if (f->value_len != vl) return 0;
-	for (i = 0; i < REF_MAXV && i < vl; i++) if (f->value[i] != (ref_u8)value[i]) return 0;
-	return 1;
+	size_t i;
+	vp_bytes(buf, n);
+	buf[n] = '\0';
+	for (i = 0; i < n; i++)
+		__CPROVER_assume(buf[i] != '\0');
 }
 
 void harness_head(void)
@@ -102,10 +86,9 @@ void harness_head(void)
 	struct evhttp http;
 	struct evkeyvalq in_headers, out_headers;
 	struct evbuffer *sink, *body;
-	struct ref_hsection H;
 	char key[VP_K + 1], val[VP_V + 1], txt[VP_R + 1];
-	size_t blen, i, nauto = 0, nf_expected;
-	int add_rc, have_user_header;
+	size_t i;
+	int same = 1;
 
 	memset(&req, 0, sizeof(req));
 	memset(&evcon, 0, sizeof(evcon));
@@ -123,91 +106,59 @@ void harness_head(void)
 	req.output_headers = &out_headers;
 	req.output_buffer = body;
 	req.major = 1; req.minor = VP_MINOR;
+	req.evcon = &evcon;
 
-	/* caller content */
+	/* caller content, placed the way the accepting API functions store it (obligation (b)) */
 	vp_cstr(key, VP_K);
 	vp_cstr(val, VP_V);
 	vp_cstr(txt, VP_R);
-	blen = (size_t)vp_range(0, 2);
-	if (blen) evbuffer_add(body, "xy", blen);
-	add_rc = evhttp_add_header(&out_headers, key, val);
-	VP_ASSERT(add_rc == 0 || add_rc == -1, "C26: evhttp_add_header returns 0 or -1");
-	have_user_header = (add_rc == 0);
+	/* the caller's header is not one of the names the automatic headers look for (VP_K <= 4 rules out the longer ones) */
+	__CPROVER_assume(evutil_ascii_strcasecmp(key, "Date") != 0);
+	if (VP_B) evbuffer_add(body, "xy", VP_B);
+	{
+		int rc = evhttp_add_header_internal(&out_headers, key, val);
+		VP_ASSERT(rc == 0, "C26: header stored");
+	}
 
 #ifdef VP_RESPONSE
-	{
-		static const int std_codes[] = { 200, 404, 100, 304 };
-		int use_default = vp_bool();
-		/* caller's phrase: any code; library's phrase table: a few codes (phrases are constants) */
-		int code = use_default ? std_codes[vp_range(0, 3)] : (int)vp_range(100, 599);
-		req.kind = EVHTTP_REQUEST; /* an incoming request being answered */
-		req.type = EVHTTP_REQ_GET;
-		req.evcon = &evcon;
-		evhttp_response_code_(&req, code, use_default ? NULL : txt);
-		evhttp_make_header(&evcon, &req);
-
-		split_lines(sink->d + sink->off, evbuffer_get_length(sink));
-		VP_ASSERT(nol >= 2 && head_end <= evbuffer_get_length(sink), "C26: output has a status line and an end of header section");
-		{
-			struct ref_statusline S;
-			ref_statusline_parse(ol[0], olen[0], &S);
-			VP_ASSERT(S.wellformed, "C26: first line written is not a status-line (RFC 9112 4)");
-			VP_ASSERT(S.code == code && S.major == 1 && S.minor == VP_MINOR, "C26: status line written != version/code supplied");
-			VP_ASSERT(S.r_len == strlen(req.response_code_line), "C26: reason phrase on the wire != reason phrase stored for the reply");
-		}
+	req.kind = EVHTTP_RESPONSE;
+	req.type = EVHTTP_REQ_GET;
+	req.response_code = VP_CODE;
+	req.response_code_line = mm_strdup(txt);
+	evhttp_make_header(&evcon, &req);
+	ex_s("HTTP/1."); ex_c('0' + VP_MINOR); ex_c(' ');
+	ex_c('0' + VP_CODE / 100); ex_c('0' + (VP_CODE / 10) % 10); ex_c('0' + VP_CODE % 10); ex_c(' ');
+	ex_s(txt); ex_s("\r\n");
+	ex_s(key); ex_s(": "); ex_s(val); ex_s("\r\n");
+	if (VP_MINOR >= 1) ex_s("Date: D\r\n");
+	if (VP_MINOR >= 1 && VP_CODE != 204 && VP_CODE != 304 && !(VP_CODE >= 100 && VP_CODE < 200)) {
+		ex_s("Content-Length: "); ex_c('0' + VP_B); ex_s("\r\n");
 	}
+	ex_s("\r\n");
+	if (VP_B) { ex_c('x'); if (VP_B > 1) ex_c('y'); }
 #else
 	{
 		static const enum evhttp_cmd_type types[] = { EVHTTP_REQ_GET, EVHTTP_REQ_POST, EVHTTP_REQ_HEAD, EVHTTP_REQ_PUT, EVHTTP_REQ_DELETE, EVHTTP_REQ_OPTIONS };
-		enum evhttp_cmd_type t = types[vp_range(0, 5)];
-		int rc;
-		evcon.retry_cnt = 1; /* evhttp_make_request() only queues the request (no connect, no dispatch) */
-		evcon.state = EVCON_DISCONNECTED;
-		rc = evhttp_make_request(&evcon, &req, t, txt);
-		if (rc != 0) {
-			VP_WITNESS("evhttp_make_request refused the target");
-			return;
+		static const char *const names[] = { "GET", "POST", "HEAD", "PUT", "DELETE", "OPTIONS" };
+		req.kind = EVHTTP_REQUEST;
+		req.type = types[VP_METHOD];
+		req.uri = mm_strdup(txt);
+		evhttp_make_header(&evcon, &req);
+		ex_s(names[VP_METHOD]); ex_c(' '); ex_s(txt); ex_s(" HTTP/1."); ex_c('0' + VP_MINOR); ex_s("\r\n");
+		ex_s(key); ex_s(": "); ex_s(val); ex_s("\r\n");
+		/* "Add the content length on a request if missing; always add it for POST and PUT requests" (methods with a body) */
+		if (VP_METHOD != 2 && (VP_B > 0 || VP_METHOD == 1 || VP_METHOD == 3)) {
+			ex_s("Content-Length: "); ex_c('0' + VP_B); ex_s("\r\n");
 		}
-		evhttp_make_header(&evcon, &req); /* what evhttp_request_dispatch() does next */
-
-		split_lines(sink->d + sink->off, evbuffer_get_length(sink));
-		VP_ASSERT(nol >= 2 && head_end <= evbuffer_get_length(sink), "C26: output has a request line and an end of header section");
-		{
-			struct ref_reqline R;
-			size_t tl = strlen(txt);
-			int same = 1;
-			ref_reqline_parse(ol[0], olen[0], &R);
-			VP_ASSERT(R.wellformed && R.strict, "C26: first line written is not a request-line (RFC 9112 3)");
-			VP_ASSERT(R.method == (unsigned)t && R.major == 1 && R.minor == VP_MINOR, "C26: request line written != method/version supplied");
-			for (i = 0; i < VP_R; i++) if (i < tl && i < R.t_len && ol[0][R.t_off + i] != (ref_u8)txt[i]) same = 0;
-			VP_ASSERT(R.t_len == tl && same, "C26: request target written != target supplied");
-		}
+		ex_s("\r\n");
+		if (VP_B) { ex_c('x'); if (VP_B > 1) ex_c('y'); }
 	}
 #endif
-	/* header section: exactly the caller's field plus the documented automatic ones */
-	ref_header_section(ol + 1, olen + 1, nol - 1, &H);
-	VP_ASSERT(H.status == REF_H_DONE, "C26: header section written does not parse / is not terminated by one empty line");
-	VP_ASSERT(H.nlines_used == nol - 1, "C26: header section ends before the empty line the serialiser wrote (injected end of headers)");
-	for (i = 0; i < REF_MAXF; i++) {
-		if (i >= H.nfields) break;
-		if (have_user_header && field_is(&H.f[i], key, val)) continue;
-		if (ref_eq(H.f[i].name, H.f[i].name_len, "Content-Length"))
-			VP_ASSERT(H.f[i].value_len == 1 && H.f[i].value[0] == (ref_u8)('0' + blen), "C26: automatic Content-Length != length of the body written");
-		if (ref_eq(H.f[i].name, H.f[i].name_len, "Date") || ref_eq(H.f[i].name, H.f[i].name_len, "Content-Length") ||
-		    ref_eq(H.f[i].name, H.f[i].name_len, "Connection") || ref_eq(H.f[i].name, H.f[i].name_len, "Content-Type") ||
-		    ref_eq(H.f[i].name, H.f[i].name_len, "Transfer-Encoding")) { nauto++; continue; }
-		VP_ASSERT(0, "C26: a header field on the wire is neither the caller's nor a documented automatic one");
-	}
-	nf_expected = (have_user_header ? 1 : 0) + nauto;
-	VP_ASSERT(H.nfields == nf_expected, "C26: number of header fields on the wire != caller's + automatic");
-	if (have_user_header) {
-		int found = 0;
-		for (i = 0; i < REF_MAXF; i++) if (i < H.nfields && field_is(&H.f[i], key, val)) found = 1;
-		VP_ASSERT(found, "C26: the caller's header field is not on the wire as supplied");
-	}
-	/* body: exactly the caller's bytes follow the head */
-	VP_ASSERT(evbuffer_get_length(sink) - head_end == blen, "C26: bytes after the header section != caller's body");
-	if (have_user_header) VP_WITNESS("message with caller header written");
-	if (!have_user_header) VP_WITNESS("header refused by evhttp_add_header");
+	VP_ASSERT(evbuffer_get_length(sink) == exp_len, "C26: number of bytes written != start-line + caller's header + automatic headers + CRLF + body");
+	for (i = 0; i < VP_FLAT_CAP; i++)
+		if (i < exp_len && sink->d[sink->off + i] != exp_out[i]) same = 0;
+	VP_ASSERT(same, "C26: bytes written != 'start-line CRLF *(name \": \" value CRLF) CRLF body' with the caller's strings verbatim");
+	VP_ASSERT(evbuffer_get_length(body) == 0, "C26: the body was moved to the output");
+	VP_WITNESS("message head written");
 	evhttp_clear_headers(&out_headers);
 }
